@@ -4,7 +4,7 @@ the full pipeline model starts from the files' bytes; run_both (single-file, tok
 the implementation's tokens."""
 import os, re
 from common import *
-import gen_tables, gen_expr, gen_link, gen_isa, gen_exprloc
+import gen_tables, gen_expr, gen_link, gen_isa, gen_exprloc, gen_trace
 
 ARCHES = ["z80", "sm83", "6502"]
 
@@ -15,6 +15,7 @@ def setup(ck, prop):
     ck.translator.update(gen_link.generate())
     ck.translator.update(gen_isa.generate())
     ck.translator.update(gen_exprloc.generate())
+    ck.translator.update(gen_trace.generate())
     bad = [k for k, v in ck.translator.items() if not v]
     ck.extra["translator_tables_parsed"] = sorted(k for k, v in ck.translator.items() if v)
     if bad:
